@@ -9,17 +9,17 @@ TRACE_NOTE = ("Trusted: TLC; the harness projection (ranks / content ids / three
               "exhaustive only within the stated model constants; real-run corpus is a finite seeded sample.")
 
 CHECKS = {
- "C06": dict(tech="TLC exhaustive on Tempering.tla (all option combos, K=8, all ESS oracles, liveness) + TLC trace validation (SMCTrace.tla) of real stub-kernel SMC runs over the schedule-option grid",
+ "C06": dict(tech="TLC exhaustive on Tempering.tla (all option combos, K=8, all ESS oracles, liveness) + TLC trace validation (SMCTrace.tla) of real stub-kernel SMC runs over the schedule-option grid (every sampler class and namespace, reruns on one object, resumed runs incl. another min_step) + direct replay of determine_beta over a grid of states x options + Apalache inductive invariant (thorough)",
              text="Design-level controller model-checked exhaustively (safety + termination under fairness); every real run of a seeded option/population grid is validated event-by-event by TLC against the spec with schedule monitors. Right level: the property quantifies over option combinations and population shapes, which the model enumerates and the runs sample.", ref="§3.1, §6 C06"),
- "C07": dict(tech="TLC exhaustive on Tempering.tla (BisectPost, AdaptiveMaximal for every downward-closed ESS oracle and any interior probe) + TLC trace validation of real runs with extended-precision ESS flags",
+ "C07": dict(tech="TLC exhaustive on Tempering.tla (BisectPost, AdaptiveMaximal for every downward-closed ESS oracle and any interior probe) + TLC trace validation of real runs with extended-precision ESS flags + direct replay of determine_beta (maximal admissible step judged from independently computed ESS) over a grid of states x options",
              text="Bracketing search model-checked for all oracles/probe orders; on real runs each adaptive step is judged by TLC from independently recomputed ESS flags (meets / next_meets / meets_one / forced).", ref="§3.1, §6 C07"),
  "C08": dict(tech="TLC exhaustive on SMCRun.tla (EvidenceTerms/EvidenceSum/EvidenceIndependent with crash+resume) + TLC trace validation with provenance triples of every recorded ratio; variant groups (n_final, cadence) compared by evidence id",
              text="Design model explores every cadence / n_final / crash / resume route; real runs are validated with per-iteration provenance (which population and temperature pair reproduces each recorded ratio).", ref="§3.2, §6 C08"),
- "C10": dict(tech="TLC trace validation (SMCTrace.tla: CachedCoherent, InitialPopulation) of real runs incl. rejection/redraw, resampling, mutation, enlargement, checkpoints; SMCRun.tla exhaustive for the population flow",
+ "C10": dict(tech="TLC trace validation (SMCTrace.tla: CachedCoherent, InitialPopulation) of real runs incl. rejection/redraw, resampling, mutation, enlargement, checkpoints, populations restored from files and results converted by the output-namespace option; InitialDraw.tla replay (invalid draws: -inf, NaN, +inf); results and histories saved to HDF5 and read back; SMCRun.tla exhaustive for the population flow",
              text="Every population the library hands out (history, payloads, result) is re-evaluated with harness-owned injective likelihood/prior/proposal; TLC checks the coherence flags at every event.", ref="§6 C10"),
  "C11": dict(tech="TLC exhaustive on SMCRun.tla (Crash at every user-call site, <=2 crashes, 4 resume routes, payload/restored field sets) + TLC trace validation of reference/crashed/resumed groups (fault at each likelihood call)",
              text="Design model proves the inductive core (restored live state equals the state at checkpoint time) for every crash point; real groups compare bit-exact content ids of schedule, populations, evidence and history between resumed and uninterrupted runs.", ref="§3.2, §6 C11"),
- "C17": dict(tech="TLC trace validation: every likelihood event must carry the prior of exactly its points; TLC sums batch sizes and compares with the reported counter",
+ "C17": dict(tech="TLC trace validation: every likelihood event must carry the prior of exactly its points; TLC sums batch sizes and compares with the reported counter (also after a run left through an exception, and in resumed runs); InitialDraw.tla case space replayed on draw_initial_samples",
              text="All likelihood calls of all runs (initial draw, kernel target, post-mutation, enlargement, resumed runs) are events of the validated traces.", ref="§6 C17"),
  "C18": dict(tech="TLC exhaustive on SMCRun.tla (HistoryFaithful incl. crash/resume) + TLC trace validation: spec-computed history vs logged history, provenance of beta/ESS/ratio",
              text="The spec recomputes the history from seam events with SMCRun's own transformers and compares with what the sampler recorded; also on resumed runs.", ref="§3.2, §6 C18"),
